@@ -216,7 +216,7 @@ PROPS["C15"] = dict(
                  "SubPermutation's unused slice capacity is read only to tell draws apart during probing"],
     jobs=[
         J("TestC15_Public", 600, 60000, shards=4),
-        J("TestC15_Frequencies", 30, 600, shards=2),
+        J("TestC15_Frequencies", 30, 150, shards=4),
         J("TestVerifC15_UintN", 4096, 65536, shards=16, kind="c15"),
         J("TestVerifC15_Perm", 7, 9, shards=4, kind="c15"),
         J("TestVerifC15_Deep", 128, 1024, shards=4, kind="c15"),
